@@ -3,6 +3,7 @@ package sym
 import (
 	"encoding/hex"
 	"fmt"
+	"os"
 	"strconv"
 	"go/types"
 	"net/textproto"
@@ -125,6 +126,23 @@ func registerNatives(e *Engine) {
 	})
 	vp("ForkReads", func(ex *Exec, site ssa.Instruction, args []Value) Value {
 		ex.forkReads = ex.term(args[0]).IsTrue()
+		return nil
+	})
+	vp("File", func(ex *Exec, site ssa.Instruction, args []Value) Value {
+		data, err := os.ReadFile(ex.eng.repoFile(ex.argName(args[0])))
+		if err != nil {
+			ex.fail("vp.File: %v", err)
+		}
+		return ex.bytesOfConst(data)
+	})
+	vp("Seed", func(ex *Exec, site ssa.Instruction, args []Value) Value {
+		var n uint64
+		fmt.Sscan(os.Getenv("VERIF_SEED"), &n)
+		return ex.c64(n)
+	})
+	vp("Emit", func(ex *Exec, site ssa.Instruction, args []Value) Value {
+		name := ex.argName(args[0])
+		ex.eng.rep.Emits = append(ex.eng.rep.Emits, name+"="+ex.emitValue(args[1]))
 		return nil
 	})
 	vp("EndPath", func(ex *Exec, site ssa.Instruction, args []Value) Value {
@@ -1146,3 +1164,65 @@ func (ex *Exec) sprintfRope(f string, args []Value) (Value, bool) {
 	}
 	return res, true
 }
+
+
+// emitValue renders a fully concrete value for the translator self-test.
+func (ex *Exec) emitValue(v Value) string {
+	if iv, ok := v.(*Iface); ok {
+		if iv == nil {
+			return "nil"
+		}
+		if iv.NilC != nil {
+			ex.fail("vp.Emit of a symbolic value")
+		}
+		if _, isErr := iv.V.(Ptr); isErr && types.Implements(iv.Typ, errorIface) {
+			return "error"
+		}
+		v = iv.V
+	}
+	switch x := v.(type) {
+	case *smt.Term:
+		if !x.IsConst() {
+			ex.fail("vp.Emit of a symbolic value")
+		}
+		if x.S.K == smt.KBool {
+			return fmt.Sprint(x.IsTrue())
+		}
+		return x.Val.String()
+	case *Str:
+		if x.K != strConc {
+			s, ok := ex.bytesToStr(ex.strToBytes(x).(Bytes)).(*Str)
+			if !ok || s.K != strConc {
+				ex.fail("vp.Emit of a symbolic string")
+			}
+			return "s:" + s.C
+		}
+		return "s:" + x.C
+	case Bytes:
+		if x.BO == nil {
+			return "b:"
+		}
+		n, ok := concreteLen(x.Len)
+		if !ok || !x.Off.IsConst() {
+			ex.fail("vp.Emit of bytes with symbolic length")
+		}
+		buf := make([]byte, n)
+		for i := 0; i < n; i++ {
+			t := ex.readByte(x.BO, ex.c64(x.Off.Uint64()+uint64(i)))
+			if !t.IsConst() {
+				ex.fail("vp.Emit of symbolic bytes")
+			}
+			buf[i] = byte(t.Uint64())
+		}
+		return "b:" + hex.EncodeToString(buf)
+	case Ptr:
+		if x.Obj == nil {
+			return "nil"
+		}
+		return "ptr"
+	}
+	ex.fail("vp.Emit of %T", v)
+	return ""
+}
+
+var errorIface = types.Universe.Lookup("error").Type().Underlying().(*types.Interface)
